@@ -35,6 +35,10 @@ class PLISTNode(ContainerNode):
             )
         return self.root.edits(node)
 
+    def diff_target(self) -> TreeNode:
+        # a document of another type should be compared to the contents of the plist, not to this wrapper
+        return self.root
+
     def calculate_total_size(self) -> int:
         return self.root.calculate_total_size()
 
